@@ -247,6 +247,82 @@ def chk_reuse(case, acc, seed):
     acc.case(case, outcome='reuse')
 
 
+def chk_large_merge(case, acc, seed):
+    """sizes beyond the small scope, results kept while further merges of the same box shape are made"""
+    import lentil.field as lf
+    from lentil.field import Field
+    n, d = case['n'], case['shift']
+    rng = np.arange(n * n).reshape(n, n)
+    mk = lambda k, off: Field(data=(rng % 7 + 1 + k) * (1 + 0.5j * k), offset=list(off))
+    a, b = mk(1, (0, 0)), mk(2, (d, d))
+    r1 = lf.merge(a, b)
+    keep1 = np.array(r1.data, copy=True)
+    c, e = mk(3, (0, 0)), mk(4, (d, d))          # same bounding-box shape as the first merge
+    r2 = lf.merge(c, e)
+    if not np.array_equal(r1.data, keep1):
+        acc.violation('merge:result-changes-later:large', case, f'the Field returned by an earlier merge of a {r1.data.shape} box changed when another merge of the same box shape was made')
+    if np.shares_memory(r1.data, r2.data):
+        acc.violation('merge:results-share-memory:large', case, 'two merge results share one data array')
+    # model for the first merge
+    exp = np.zeros((n + abs(d), n + abs(d)), dtype=complex)
+    exp[:n, :n] += np.asarray(a.data) if d >= 0 else 0
+    if d >= 0:
+        exp[d:d + n, d:d + n] += np.asarray(b.data)
+        if keep1.shape != exp.shape or not np.allclose(keep1, exp):
+            acc.violation('merge:overlap:value:large', case, 'large merge is not the sum of its operands')
+    # reduce over four fields forming two groups whose bounding boxes have the same shape
+    far = 5 * n
+    fs = [mk(1, (0, 0)), mk(2, (d, d)), mk(3, (far, far)), mk(4, (far + d, far + d))]
+    res = lf.reduce(fs)
+    if len(res) != 2:
+        acc.violation('reduce:groups:large', case, f'{len(res)} groups instead of 2')
+    elif np.shares_memory(res[0].data, res[1].data):
+        acc.violation('reduce:results-share-memory:large', case, 'the two reduced fields share one data array')
+    else:
+        tot = sum(complex(np.sum(f.data)) for f in res)
+        want = sum(complex(np.sum(f.data)) for f in fs)
+        if abs(tot - want) > 1e-9 * abs(want):
+            acc.violation('reduce:total:large', case, f'total {tot} != {want}')
+    acc.cls('large-merge')
+    acc.case(case, outcome='large-merge')
+
+
+def chk_same_object(case, acc, seed):
+    """the very same Field object listed twice is two contributions"""
+    import lentil.field as lf
+    specs = [REDUCE_POOL[i] for i in case['seq']]
+    objs = {}
+    fields = []
+    for i, sp in zip(case['seq'], specs):
+        if i not in objs:
+            objs[i] = mkfield(sp, seed)
+        fields.append(objs[i])                     # repeated index -> identical object
+    total = {}
+    for sp in specs:
+        e, _ = embed_operand(sp, seed)
+        for k, v in e.items():
+            total[k] = total.get(k, 0j) + v
+    try:
+        res = lf.reduce(fields)
+    except Exception as e:
+        acc.violation(f'reduce:same-object:raises:{type(e).__name__}', case, repr(e))
+        return
+    got = {}
+    for f in res:
+        e = embed_result(f, False)
+        for k, v in (e[0] if e else {}).items():
+            got[k] = got.get(k, 0j) + v
+    if not dict_eq(got, total)[0]:
+        acc.violation('reduce:same-object-listed-twice', case, 'a Field object that appears twice in the collection is counted once')
+    if len(case['seq']) == 2 and case['seq'][0] == case['seq'][1]:
+        m = lf.merge(fields[0], fields[1])
+        e = embed_result(m, False)
+        if e is None or not dict_eq(e[0], total)[0]:
+            acc.violation('merge:same-object-twice', case, 'merge(a, a) is not 2a')
+    acc.cls('same-object')
+    acc.case(case, outcome='same-object')
+
+
 def chk_insert0(case, acc, seed):
     """0-d field into 0-d target (the default wavefront)."""
     import lentil.field as lf
@@ -311,6 +387,16 @@ def chk_extent(case, acc, seed):
         if tuple(ishape) != ():
             acc.violation('extent:intersection_shape', case, f'disjoint but shape {ishape}')
         acc.cls('extent:disjoint')
+    # a one-element (0-d) array sits on the centre sample; also relative to a parent array
+    for sh0 in ((), (1, 1)):
+        for P0 in ((5, 6), (4, 4), (1, 1)):
+            e0 = le.array_extent(sh0, oa, parent_shape=P0)
+            want0 = (oa[0] + P0[0] // 2, oa[0] + P0[0] // 2, oa[1] + P0[1] // 2, oa[1] + P0[1] // 2)
+            if tuple(int(x) for x in e0) != want0:
+                acc.violation('extent:parent:one-element', dict(case, shape0=list(sh0), parent=P0), f'array_extent({sh0}, {oa}, parent_shape={P0}) = {e0} != {want0}')
+        e1 = le.array_extent(sh0, oa)
+        if tuple(int(x) for x in e1) != (oa[0], oa[0], oa[1], oa[1]):
+            acc.violation('extent:one-element', dict(case, shape0=list(sh0)), f'{e1}')
     # field-level queries
     import lentil.field as lf
     from lentil.field import Field
@@ -398,7 +484,7 @@ def chk_reduce(case, acc, seed):
     acc.case(case, outcome=f'reduce-{len(idx)}->{len(res)}')
 
 
-DISPATCH = {'reuse': chk_reuse, 'mul': chk_mul, 'merge': chk_merge, 'insert': chk_insert, 'insert0': chk_insert0,
+DISPATCH = {'largemerge': chk_large_merge, 'sameobj': chk_same_object, 'reuse': chk_reuse, 'mul': chk_mul, 'merge': chk_merge, 'insert': chk_insert, 'insert0': chk_insert0,
             'extent': chk_extent, 'reduce': chk_reduce}
 
 
@@ -475,6 +561,18 @@ def t_reduce(arg, acc):
         frontier = nxt
 
 
+def t_large(arg, acc):
+    for n in ((30, 33, 40) if arg['tier'] == 'quick' else (30, 32, 33, 40, 64)):
+        for d in (6, 1, 15):
+            acc.transitions += 1
+            chk_large_merge({'kind': 'largemerge', 'n': n, 'shift': d}, acc, arg['seed'])
+    import itertools as it
+    for seq in list(it.product(range(len(REDUCE_POOL)), repeat=2)) + [(0, 1, 2, 0), (5, 6, 5), (0, 9, 0, 9), (3, 3, 3)]:
+        if len(set(seq)) < len(seq):
+            acc.transitions += 1
+            chk_same_object({'kind': 'sameobj', 'seq': list(seq)}, acc, arg['seed'])
+
+
 def run(tier, seed, acc, procs=None):
     n = len(field_specs(tier))
     chunk = 4 if tier == 'quick' else 6
@@ -489,6 +587,7 @@ def run(tier, seed, acc, procs=None):
     depth = 3 if tier == 'quick' else 4
     for f in range(len(REDUCE_POOL)):
         tasks.append(('t_reduce', {'depth': depth, 'seed': seed, 'first': f}))
+    tasks.append(('t_large', {'seed': seed, 'tier': tier}))
     acc.states += 1
     acc.transitions += len(tasks)
     engine.run_parallel(MOD, tasks, acc, procs)
@@ -503,7 +602,7 @@ def run(tier, seed, acc, procs=None):
         'assumptions': ['one-element operands only at offset (0,0) (the only place the Plane/Wavefront API puts them)',
                         'merge of an infinite constant with a finite array is not representable and is left out',
                         'payloads are products of small primes (exact in binary floating point)'],
-        'require': {'mul:overlap': 100, 'mul:disjoint': 100, 'mul:const': 10, 'merge:overlap': 100,
+        'require': {'large-merge': 9, 'same-object': 10, 'mul:overlap': 100, 'mul:disjoint': 100, 'mul:const': 10, 'merge:overlap': 100,
                     'merge:disjoint': 100, 'insert:all': 10, 'insert:some': 100, 'insert:none': 100,
                     'insert:clip-top': 10, 'insert:clip-bottom': 10, 'insert:clip-left': 10,
                     'insert:clip-right': 10, 'extent:overlapping': 100, 'extent:disjoint': 100},
